@@ -31,7 +31,7 @@ DECIDING = {
             'sequence used as a requirement (remove=True)', 'KeyError on absent requirement'],
     'C20': ['outputs parsed completely', 'nodes matched with atomic jobs', 'edges matched with requirements',
             'clusters matched with nested schedulers', 'labels with quotes / newlines / DOT punctuation compared',
-            'list() outputs checked'],
+            'list() outputs checked', 'trees exported once before being completed (history)'],
 }
 
 RULES = {
